@@ -171,15 +171,18 @@ Fixpoint subs_of (g : gview) (p : Z) (alt : str) : list key :=
 Inductive ause := USub (k : key) | UDel (k : key) | UIns (k : key).
 Definition same_keys (a b : list key) : bool :=
   forallb (fun x => memb key_eqb x b) a && forallb (fun x => memb key_eqb x a) b.
-(* an equal-length allele of two or more bases counts only when its differences from the gene are exactly the components of one
-   catalogued multi-substitution; any other multi-base replacement is a record "of another shape" *)
+(* an equal-length allele of two or more bases counts when it is a left-padded single-base substitution (REF and ALT share
+   all bases but the last: the standard spelling of a substitution inside a multi-allelic record, e.g. CT -> C,CG) or when its
+   differences from the gene are exactly the components of one catalogued multi-substitution; any other multi-base replacement
+   is a record "of another shape" *)
+Definition padded_sub (ref alt : str) : bool := zlen ref - Z.of_nat (prefix_len ref alt) =? 1.
 Definition mnp_catalogued (g : gview) (cs : list key) : bool :=
   existsb (fun m => same_keys (map (fun ck : nat * key => snd ck) (comps m)) cs) (g_all_multi g).
 Definition alt_uses (g : gview) (pos : Z) (ref alt : str) : list ause :=
   let off := prefix_len ref alt in let zo := Z.of_nat off in
   if (length ref =? length alt)%nat then
     let cs := subs_of g pos alt in
-    if (length alt <=? 1)%nat || mnp_catalogued g cs then map USub cs else []
+    if (length alt <=? 1)%nat || padded_sub ref alt || mnp_catalogued g cs then map USub cs else []
   else if (zlen alt <? zlen ref) && (zlen alt - zo =? 0) && (0 <? zo) then
     [UDel (zo + pos, del_op (gslice g (zo + pos) (Z.to_nat (zlen ref - zo))))]
   else if (zlen ref <? zlen alt) && (zlen ref - zo =? 0) && (0 <? zo) then
